@@ -29,3 +29,5 @@ func vLocksHeld() int
 func vWithin(inner, outer []byte) bool
 func vMutexFree(mu *sync.Mutex) bool
 func vFmtArg(k int) uint64
+func vPar(f, g func())
+func vNoBlock(on bool)
